@@ -36,8 +36,6 @@ pub assume_specification<T: Clone> [<[T]>::clone_from_slice] (dst: &mut [T], src
     requires old(dst)@.len() == src@.len(),
     ensures final(dst)@ == src@;
 pub assume_specification<Idx: Clone> [<Range<Idx> as Clone>::clone] (r: &Range<Idx>) -> (c: Range<Idx>) ensures c == *r;
-pub const SHA1_SIZE: usize = 20;
-pub const SHA256_SIZE: usize = 32;
 pub struct DecodingOptions { pub x: u8 }
 pub struct MessageChunkHeader { pub message_type: MessageChunkType, pub is_final: MessageIsFinalType, pub message_size: u32, pub secure_channel_id: u32 }
 impl MessageChunkType {
@@ -329,6 +327,8 @@ def build_variant(manifest, variant, pid):
     a.add(norm_vis(types), 'types', 'env')
     a.add(norm_vis(thumb) + '\npub const THUMBPRINT_SIZE: usize = 20;\n', 'types_thumb', 'env')
     a.add(status_code_struct(manifest), 'status codes', 'env')      # every status code of the real file (D14)
+    cr_ = Src('crypto/mod.rs', manifest)
+    a.add(norm_vis(cr_.const('SHA1_SIZE')) + '\n' + norm_vis(cr_.const('SHA256_SIZE')), 'constants', 'env')      # the repository's own values
     a.add(ENV, 'env', 'env')
     a.add(ENV_FNS, 'env2', 'env')
     a.add('impl Thumbprint {')
